@@ -1177,6 +1177,11 @@ func (m *metadataAPI) ResumePartition(streamName string, id int32, recovered boo
 	}
 	// Update latest pause status change timestamp.
 	partition.pauseTimestamps.update()
+	// The partition is no longer paused: clear the flag on the protobuf too,
+	// which is what snapshots and metadata responses carry.
+	partition.mu.Lock()
+	partition.Paused = false
+	partition.mu.Unlock()
 
 	stream.SetPartition(id, partition)
 
